@@ -96,6 +96,13 @@ def run(ctx):
             ctx.sample({"einsum": rs[0]["yaml"]["einsum"]["expressions"], "partitioning": (rs[0]["yaml"].get("mapping") or {}).get("partitioning"),
                         "distinct_texts": len(texts), "seeds": len(oks)})
     c06.check_records(ctx, da_reqs)
+    # every distinct variant against the Lean model compilers: a variant whose loops are the model nest's and for which the
+    # theorem's decidable hypotheses hold computes the Einsum's meaning for EVERY input (C02.model_partitioned / C03.static_then_chain /
+    # flatten_nest), hence all such variants of one specification compute identical tensors on all inputs, not only the sampled ones
+    import c02, c03
+    variants = [r for r in da_reqs if r.get("case") and r.get("execs")]
+    c02.check_model(ctx, variants, only_model_class=True)
+    c03.check_model(ctx, [r for r in variants if r["mode"] == "plain" and not c02.in_model_class(r["case"]) and len(r["case"]["eins"]) == 1])
 
 
 def replay(ctx, path):
